@@ -18,6 +18,8 @@ pub mod c13;
 pub mod c14;
 pub mod c15;
 pub mod c16;
+pub mod c17;
+pub mod c18;
 pub mod c19;
 pub mod c20;
 
@@ -41,6 +43,8 @@ pub fn dispatch_check(id: &str, tier: Tier, seed: u64) -> i32 {
         "C10" => run_check(&c10::C10, tier, seed),
         "C07" => run_check(&c07::C07, tier, seed),
         "C14" => run_check(&c14::C14, tier, seed),
+        "C17" => run_check(&c17::C17, tier, seed),
+        "C18" => run_check(&c18::C18, tier, seed),
         _ => {
             eprintln!("harness error: unknown property {id}");
             2
@@ -68,6 +72,8 @@ pub fn dispatch_replay(id: &str, file: &str) -> i32 {
         "C10" => run_replay(&c10::C10, file),
         "C07" => run_replay(&c07::C07, file),
         "C14" => run_replay(&c14::C14, file),
+        "C17" => run_replay(&c17::C17, file),
+        "C18" => run_replay(&c18::C18, file),
         _ => {
             eprintln!("harness error: unknown property {id}");
             2
